@@ -50,8 +50,10 @@ def gen_cases(rng, tier):
         cases.append({'kind': 'mat', 'mkind': kind, 'n': n, 'A': A, 'B': B, 'nroots': rng.randint(1, max(1, min(3, n // 2 - 1))),
                       'eps_shift': 1e-3 if kind == 'neardegenerate' else 0.0})
     # block structure with supplied guesses: one guess is an exact eigenvector e_0 decoupled from the rest and lying
-    # ABOVE the two lowest eigenvalues, the other guess lives in the block that contains both of them: the second Ritz
-    # value sits at lam_b (stationary) until one from the big block drops below it (roots change index while iterating)
+    # ABOVE the two lowest eigenvalues; two more guesses live in the block that contains both of them, so that the
+    # guess space has full-rank overlap with the target space (the property's precondition; with a single guess in the
+    # block the unchanged solver may legitimately stop at lam_b). The second Ritz value sits at lam_b (stationary)
+    # until one from the big block drops below it: roots change their index while iterating
     import numpy
     made = 0
     for _try in range(60):
@@ -73,7 +75,7 @@ def gen_cases(rng, tier):
             continue
         made += 1
         cases.append({'kind': 'mat', 'mkind': 'blockguess', 'n': n, 'A': A, 'B': [[0] * n for _ in range(n)], 'nroots': 2,
-                      'eps_shift': 0.0, 'guess': [0, 1]})
+                      'eps_shift': 0.0, 'guess': [0, 1, 2]})
     for _ in range(5 if tier == 'quick' else 30):
         norb = rng.randint(4, 5)
         na = rng.randint(2, norb - 2)
@@ -244,7 +246,22 @@ def compare(case, got, exp, mode):
     return bad
 
 
+def _guess_is_exact_eigenvector(case):
+    """some guess vector (a unit vector e_g: the defaults are e_0 .. e_{2 nroots - 1}) is an exact eigenvector of H,
+    i.e. column g of H vanishes off the diagonal"""
+    if case.get('kind') != 'mat':
+        return False
+    n = case['n']
+    gs = case.get('guess') or list(range(min(n, 2 * case['nroots'])))
+    A, B = case['A'], case['B']
+    return any(all(abs(A[i][g]) < 1e-13 and abs(B[i][g]) < 1e-13 for i in range(n) if i != g) for g in gs)
+
+
 def classify(case, mode, bad, got, exp):
+    # F-C18-decoupled-exact-guess: every returned pair IS an eigenpair (no residual / normalisation complaint), but a
+    # returned value is not among the lowest, and a guess vector was an exact eigenvector of H (zero residual from the start)
+    if bad and all(b.startswith('no certificate') for b in bad) and _guess_is_exact_eigenvector(case):
+        return 'F-C18-decoupled-exact-guess'
     return None
 
 
